@@ -407,6 +407,16 @@ def run(p: Program, rep: Report, tier: str) -> None:
                     rep.violation("R18.5", construct(m, text="delete by stale position"), where(m, node),
                                   f"include_query_params sets a key through {c.name}.{mname}, where {desc}: for a query in which the key occurs three or more times a pair of another key is "
                                   "removed (or IndexError is raised) instead of 'set'")
+            # ... nor remove the other occurrences as one contiguous slice (the pairs of a key need not be adjacent: page=3&order=name&page=4)
+            from ..common import with_helpers as _wh18
+            for f_ in _wh18(p, m):
+                for n in ast.walk(f_.node):
+                    if isinstance(n, ast.Delete) and any(isinstance(t, ast.Subscript) and isinstance(t.slice, ast.Slice) and (t.slice.lower is not None or t.slice.upper is not None)
+                                                         and ast.unparse(t.value).endswith("_list") for t in n.targets):
+                        n5 += 1
+                        rep.violation("R18.5", construct(m, text="pairs removed as a contiguous slice"), where(f_, n),
+                                      f"include_query_params sets a key through {c.name}.{mname}, which removes the other occurrences as one contiguous slice (`{' '.join(ast.unparse(n).split())[:60]}`): "
+                                      "in ?page=3&order=name&page=4 the unrelated parameter is removed and a stale page=4 stays - not 'set, everything else unchanged'")
         if n5 == 0:
             rep.ok("R18.5", f"set semantics of the query helper: {c.name} item assignment/deletion does not delete by position inside a loop")
     rep.require_instances("R18.5", 1)
